@@ -4,6 +4,7 @@ import Proofs.C14.Roundtrip
 import Proofs.C14.Multipath
 import Proofs.C14.Derive
 import Proofs.C15.Text
+import Proofs.C14.Musig
 /-!
 # C14 — descriptors and wallets derive what they describe and recognise only their own
 
@@ -316,6 +317,12 @@ theorem parse_miniscript_of_text (o : KeyOracle) (fuel : Nat) (n : Miniscript.Ms
   simp only [strD, parseExpr, hname.1, hname.2.1, hname.2.2, Bool.false_eq_true, if_false, Bool.false_and,
     beq_self_eq_true, if_true, parseMs, hp, hall, Bool.not_true, hsane, Except.map]
 
+/-- T2 (`musig()` key expressions, BIP390): `_parse_musig(str(key)) == key` — participants that are
+    compressed or extended keys (each with its own origin, path, wildcard), an unhardened path and `/*` on
+    the aggregate when every participant is extended and none ranged.  (Aggregation is C16's.) -/
+theorem parse_musig_of_str (o : KeyOracle) (m : Musig) (h : MusigOk o m) : parseMusig o (strMusig m) = .ok m :=
+  parseMusig_strMusig o m h
+
 /-- a small oracle for the examples: texts starting with `x` are extended public keys, every point is
     on the curve. -/
 def exampleOracle : KeyOracle where
@@ -399,6 +406,15 @@ example :
     let n : Miniscript.Ms := .bin .and_v (.wrap .v (.wrap .c (.pk_k k))) (.older 144)
     let d : D := .wsh (.ms n)
     (strD d).take 18 = "wsh(and_v(v:pk(02a".toList ∧ Desc.parse exampleOracle (strD d) = .ok d := by
+  decide +kernel
+
+/-- `musig(xA/1,[c0ffee00/2h]xB)/0/*` -/
+example :
+    let a : Key := { origin := none, atom := .xkey ['x', 'A'], path := [1], wildcard := none, hard := .h }
+    let b : Key := { origin := some { fp := [0xc0, 0xff, 0xee, 0x00], path := [2 ^ 31 + 2] }, atom := .xkey ['x', 'B'],
+                     path := [], wildcard := none, hard := .h }
+    let m : Musig := { participants := [a, b], path := [0], wildcard := true }
+    strMusig m = "musig(xA/1,[c0ffee00/2h]xB)/0/*".toList ∧ parseMusig exampleOracle (strMusig m) = .ok m := by
   decide +kernel
 
 end T2
